@@ -1,10 +1,11 @@
 /- kvmodel <component> : reads a script on stdin, writes one output line per input line. -/
 import Driver.Common
 import Driver.WalDrv
+import Driver.SstDrv
 open Driver
 
 def components : List (String × Component) :=
-  [("wal", WalDrv.component)]
+  [("wal", WalDrv.component), ("sst", SstDrv.component)]
 
 def main (args : List String) : IO UInt32 := do
   match args with
